@@ -9,7 +9,9 @@ from vfw.runner import Stats, Violation, hyp_search
 PROPERTY = 'C09'
 LEVEL = 'exploration'
 RULE = ("case = 1-2 watchers + behaviour tape + <= 30 ops from {incr, decr, "
-        "set numprocesses, restart, reload, stop, start, worker exit with any "
+        "set numprocesses, restart, reload, stop, start, rm, config-file edits "
+        "(watcher added / removed / changed, [circus] changed) + "
+        "reloadconfig in a third of the cases, worker exit with any "
         "status 0..255 or terminating signal, death at the k-th next kernel "
         "call, periodic check, loop step, time advance}; the PUB frames are "
         "parsed after every op and at the settled end.  Non-trivial = the "
@@ -92,6 +94,7 @@ def execute(case):
             viols.append(Violation('C09:blocked:%s' % w.blocked_where,
                                    'event loop blocked'))
         elif ok and not w.exited:
+            names = h.watcher_names() or []
             # adopted workers: every pid the daemon reports had a spawn event
             for name in names:
                 pids = h.pids(name) or []
@@ -176,7 +179,8 @@ def replay(case):
 
 def _strategy():
     return lifecycle_cases(statuses_full=True, respawn_false=True,
-                           kill_cmd=True, set_other=True, rm=True)
+                           kill_cmd=True, set_other=True, rm=True,
+                           config=True)
 
 
 def plan(tier, seed):
